@@ -99,3 +99,39 @@ def run(ck, facts, R, crate="mimium_lang", scope=("::compiler::typing",), floor=
             else:
                 ck.ok(R, key, {"function": f.short, "vector": name, "defined_at": f.where(t)})
     ck.floor(R, "error_vectors_tracked", n, floor)
+    # ---- a whole Result thrown away: `let _ = self.unify_types(a, b);`
+    m = 0
+    for f in facts.crate(crate).fns:
+        if f.kind == "promoted" or "::test" in f.path or not any(s in f.path for s in scope):
+            continue
+        for b, t in f.calls():
+            c = callee(t) or ""
+            g = facts.fn(c)
+            if g is None or not any(s in g.path for s in scope):
+                continue
+            rty = g.local_ty(0)
+            if not (rty.startswith("std::result::Result<") and "Error" in rty):
+                continue
+            if t[6] is None or t[6][1] or t[6][0] == 0:
+                continue
+            l = t[6][0]
+            m += 1
+            used = False
+            for b2, blk in enumerate(f.bb):
+                if blk["c"]:
+                    continue
+                for st in blk["s"]:
+                    if st[KIND] == "a" and _mentions(st[5], l):
+                        used = True
+                tt = blk["t"]
+                if tt[KIND] == "call" and _mentions(tt[5], l):
+                    used = True
+                if tt[KIND] == "switch" and _mentions(tt[4], l):
+                    used = True
+            sites = sum(1 for _, t2 in f.calls() if (callee(t2) or "") == c and t2[6] is not None and not t2[6][1])
+            key = "discard|%s|%s" % (f.short, c.split("::")[-1])
+            if used:
+                ck.ok(R, key)
+            else:
+                ck.bad(R, key, "%s calls %s and throws the Result away unread: a type error found there is neither reported nor returned, so the program is accepted — e.g. a numeric pattern against a tuple scrutinee, or match arms of different types, reach the back ends (the WASM module fails to compile, the VM reads the wrong words)" % (f.short, c.split("::", 1)[-1]), f.where(t))
+    ck.floor(R, "fallible_checker_calls", m, 40)
